@@ -1,0 +1,199 @@
+//! Verification hooks (feature `verif_hooks`): serialisers for DFA artefacts. Lives under `dfa`
+//! to read the private fields; add-only, changes nothing the macro computes.
+
+use super::simplify::Trans;
+use super::{State, StateIdx, DFA};
+use crate::nfa::AcceptingState;
+use crate::right_ctx::RightCtxDFAs;
+use crate::semantic_action_table::SemanticActionIdx;
+use crate::verif_hooks::{emit, enabled};
+
+use std::fmt::Write as _;
+
+pub trait DumpTarget {
+    fn dump_target(&self, out: &mut String);
+}
+
+pub trait DumpValue {
+    fn dump_value(&self) -> usize;
+}
+
+impl DumpValue for SemanticActionIdx {
+    fn dump_value(&self) -> usize {
+        self.as_usize()
+    }
+}
+
+impl DumpValue for () {
+    fn dump_value(&self) -> usize {
+        0
+    }
+}
+
+impl DumpTarget for StateIdx {
+    fn dump_target(&self, out: &mut String) {
+        write!(out, "t {}", self.0).unwrap();
+    }
+}
+
+fn dump_accepting<A: DumpValue>(accs: &[AcceptingState<A>], out: &mut String) {
+    write!(out, "{}", accs.len()).unwrap();
+    for acc in accs {
+        let ctx: i64 = match &acc.right_ctx {
+            None => -1,
+            Some(idx) => idx.as_usize() as i64,
+        };
+        write!(out, " {} {}", acc.value.dump_value(), ctx).unwrap();
+    }
+}
+
+impl<A: DumpValue> DumpTarget for Trans<A> {
+    fn dump_target(&self, out: &mut String) {
+        match self {
+            Trans::Trans(idx) => write!(out, "t {}", idx.0).unwrap(),
+            Trans::Accept(accs) => {
+                out.push_str("a ");
+                dump_accepting(accs, out);
+            }
+        }
+    }
+}
+
+fn dump_states<T: DumpTarget, A: DumpValue>(states: &[State<T, A>], out: &mut String) {
+    for (idx, state) in states.iter().enumerate() {
+        writeln!(
+            out,
+            "state {} {} {}",
+            idx, state.initial as u8, state.backtrack as u8
+        )
+        .unwrap();
+        out.push_str("acc ");
+        dump_accepting(&state.accepting, out);
+        out.push('\n');
+        let mut chars: Vec<(&char, &T)> = state.char_transitions.iter().collect();
+        chars.sort_by_key(|(c, _)| **c);
+        for (c, t) in chars {
+            write!(out, "ch {} ", *c as u32).unwrap();
+            t.dump_target(out);
+            out.push('\n');
+        }
+        for range in state.range_transitions.iter() {
+            write!(out, "rg {} {} ", range.start, range.end).unwrap();
+            range.value.dump_target(out);
+            out.push('\n');
+        }
+        if let Some(t) = &state.any_transition {
+            out.push_str("any ");
+            t.dump_target(out);
+            out.push('\n');
+        }
+        if let Some(t) = &state.end_of_input_transition {
+            out.push_str("eoi ");
+            t.dump_target(out);
+            out.push('\n');
+        }
+        let mut preds: Vec<usize> = state.predecessors.iter().map(|p| p.0).collect();
+        preds.sort();
+        out.push_str("pred");
+        for p in preds {
+            write!(out, " {}", p).unwrap();
+        }
+        out.push('\n');
+    }
+}
+
+pub fn dump_dfa<T: DumpTarget, A: DumpValue>(tag: &str, dfa: &DFA<T, A>) {
+    if !enabled() {
+        return;
+    }
+    let mut out = String::new();
+    writeln!(out, "DFA {} {}", tag, dfa.states.len()).unwrap();
+    dump_states(&dfa.states, &mut out);
+    out.push_str("ENDDFA\n");
+    emit(&out);
+}
+
+pub fn dump_right_ctxs(right_ctx_dfas: &RightCtxDFAs<StateIdx>) {
+    if !enabled() {
+        return;
+    }
+    for (idx, dfa) in right_ctx_dfas.iter() {
+        dump_dfa(&format!("ctx{}", idx.as_usize()), dfa);
+    }
+}
+
+pub fn dump_inlined(n_states: usize, inlined: &[StateIdx]) {
+    if !enabled() {
+        return;
+    }
+    let mut out = String::new();
+    write!(out, "CODEGEN {} inlined", n_states).unwrap();
+    for s in inlined {
+        write!(out, " {}", s.0).unwrap();
+    }
+    out.push('\n');
+    emit(&out);
+}
+
+pub fn dump_arm(state_idx: usize, pat: &proc_macro2::TokenStream) {
+    if !enabled() {
+        return;
+    }
+    emit(&format!("arm {} {}\n", state_idx, pat));
+}
+
+pub fn dump_switch_arm(rule_name: &str, state_idx: usize) {
+    if !enabled() {
+        return;
+    }
+    emit(&format!("switch {} {}\n", rule_name, state_idx));
+}
+
+/// Component-server op: build a DFA from a graph description and run `update_backtracks` on it.
+/// Input: `n ; i0 i1 .. ; a0 a1 .. ; s t ; s t ; ...` — number of states, initial states,
+/// accepting states, edges (all `any`/char-like edges behave alike for the analysis; the k-th
+/// edge out of a state is a char transition on the k-th letter).
+/// Output: one flag per state.
+#[cfg(test)]
+pub fn backtrack_line(line: &str) -> String {
+    let res = std::panic::catch_unwind(|| {
+        let parts: Vec<Vec<usize>> = line
+            .split(';')
+            .map(|p| p.split_whitespace().map(|t| t.parse().unwrap()).collect())
+            .collect();
+        let n = parts[0][0];
+        let (mut dfa, _): (DFA<StateIdx, ()>, StateIdx) = DFA::new();
+        dfa.states[0].initial = false;
+        for _ in 1..n {
+            dfa.new_state();
+        }
+        for i in &parts[1] {
+            dfa.states[*i].initial = true;
+        }
+        for a in &parts[2] {
+            dfa.make_state_accepting(
+                StateIdx(*a),
+                AcceptingState {
+                    value: (),
+                    right_ctx: None,
+                },
+            );
+        }
+        let mut out_deg: Vec<u32> = vec![0; n];
+        for edge in &parts[3..] {
+            if edge.len() != 2 {
+                continue;
+            }
+            let c = char::from_u32('a' as u32 + out_deg[edge[0]]).unwrap();
+            out_deg[edge[0]] += 1;
+            dfa.add_char_transition(StateIdx(edge[0]), c, StateIdx(edge[1]));
+        }
+        super::update_backtracks(&mut dfa);
+        let mut out = String::new();
+        for s in &dfa.states {
+            out.push(if s.backtrack { '1' } else { '0' });
+        }
+        out
+    });
+    res.unwrap_or_else(|_| String::from("PANIC"))
+}
